@@ -16,6 +16,8 @@ pub enum Path {
     /// CPU LDIR through 0xC000 with this bank paged there (128K; bank 5 or 7)
     LdirC000(u8),
     Poke,
+    /// execute_poke addressed through 0xC000 with this bank paged there (128K; bank 5 or 7)
+    PokeC000(u8),
     Scr,
     Sna,
     SzxStored,
@@ -171,6 +173,17 @@ fn deliver(e: &mut Emu, mm: &mut MemModel, c: &Case, bytes: &[u8]) -> Result<u8,
             let actions: Vec<PokeAction> = bytes.iter().enumerate().map(|(i, b)| PokeAction::mem(0x4000 + i as u16, *b)).collect();
             e.execute_poke(OnePoke(actions));
             Ok(visible_bank(machine, false))
+        }
+        Path::PokeC000(b) => {
+            let bank = if machine == Machine::K128 { b & 7 } else { 2 };
+            if machine == Machine::K128 {
+                e.verif_set_paging(latch_shadow | bank);
+                mm.latch = latch_shadow | bank;
+            }
+            idle(e, mm);
+            let actions: Vec<PokeAction> = bytes.iter().enumerate().map(|(i, b)| PokeAction::mem(0xC000 + i as u16, *b)).collect();
+            e.execute_poke(OnePoke(actions));
+            Ok(bank)
         }
         Path::Scr => {
             if machine == Machine::K128 {
@@ -472,6 +485,7 @@ pub fn case_strategy() -> impl Strategy<Value = Case> {
             Just(Path::Ldir4000),
             prop_oneof![Just(Path::LdirC000(5)), Just(Path::LdirC000(7))],
             Just(Path::Poke),
+            prop_oneof![Just(Path::PokeC000(5)), Just(Path::PokeC000(7))],
             Just(Path::Scr),
             Just(Path::Sna),
             Just(Path::SzxStored),
@@ -485,6 +499,7 @@ pub fn case_strategy() -> impl Strategy<Value = Case> {
         .prop_map(|(machine, shadow, path, kind, seed, frames)| {
             let path = match (machine, path) {
                 (Machine::K48, Path::LdirC000(_)) => Path::Ldir4000,
+                (Machine::K48, Path::PokeC000(_)) => Path::Poke,
                 (_, p) => p,
             };
             Case { machine, shadow: shadow && machine == Machine::K128, path, kind, seed, frames }
@@ -518,7 +533,7 @@ pub fn replay(run: &mut Run, phase: &str, case: &serde_json::Value) -> Result<()
 }
 
 pub const LEVEL: &str = "exploration";
-pub const RULE: &str = "paths: 6912-byte screen contents (uniform; single bits with every attribute value; per-third address-bit patterns; BRIGHT+FLASH everywhere; sparse) delivered by one of {CPU LDIR through 0x4000, CPU LDIR through 0xC000 with bank 5/7 paged, execute_poke, SCR load, SNA load, SZX load with stored or zlib pages, ROM LD-BYTES served by fast load} on 48K/128K with either 128K screen bank displayed, after different content had been on screen; then 1..40 frames with the CPU in DI;JR $ — every delivered canvas must equal the independent standard decode of the bank the ULA displays, with one FLASH phase per frame that toggles in runs of exactly 16 frames. beam-relative: one byte written by LD (HL),A at a chosen T >= 64 T before (after) the ULA reaches it must (must not) appear in the frame in progress and must appear in the next. non-trivial = content with >= 64 distinct byte values delivered by a path other than plain LDIR through 0x4000 (beam phase: every case); distinct = hash of the case";
+pub const RULE: &str = "paths: 6912-byte screen contents (uniform; single bits with every attribute value; per-third address-bit patterns; BRIGHT+FLASH everywhere; sparse) delivered by one of {CPU LDIR through 0x4000, CPU LDIR through 0xC000 with bank 5/7 paged, execute_poke through 0x4000 or through 0xC000 with bank 5/7 paged, SCR load, SNA load, SZX load with stored or zlib pages, ROM LD-BYTES served by fast load} on 48K/128K with either 128K screen bank displayed, after different content had been on screen; then 1..40 frames with the CPU in DI;JR $ — every delivered canvas must equal the independent standard decode of the bank the ULA displays, with one FLASH phase per frame that toggles in runs of exactly 16 frames. beam-relative: one byte written by LD (HL),A at a chosen T >= 64 T before (after) the ULA reaches it must (must not) appear in the frame in progress and must appear in the next. non-trivial = content with >= 64 distinct byte values delivered by a path other than plain LDIR through 0x4000 (beam phase: every case); distinct = hash of the case";
 pub const ASSUMPTIONS: &[&str] = &[
     "decoder is written from the formula in the property; canvas read from the harness FrameBuffer after each completed frame",
     "ULA reaches byte (line y, column c) at T = first-pixel T + y * line length + 4c; only writes at least 64 T away are judged",
